@@ -63,6 +63,7 @@ class Cfg:
     validate_samples: int = 3
     seed: int = 0
     structural_only: bool = False  # skip solver obligations (properties without a value quantifier)
+    types_check: bool = False  # C12: static dtypes vs schema of the compiled plan / exported frames
 
     @staticmethod
     def for_tier(tier, seed=0):
@@ -682,6 +683,138 @@ def fallback_concrete(tp: Template, b: Built, cfg: Cfg, rng: random.Random, be: 
     return o
 
 
+def _family(pl_dtype):
+    import polars as pl
+
+    if pl_dtype.is_integer():
+        return "int"
+    if pl_dtype.is_float() or pl_dtype.is_decimal():
+        return "float"
+    if pl_dtype == pl.Boolean:
+        return "bool"
+    if pl_dtype == pl.String:
+        return "str"
+    if pl_dtype == pl.Null:
+        return "null"
+    return str(pl_dtype)
+
+
+def type_obligations(tp: Template, b: Built, cfg: Cfg, rng: random.Random) -> list[Obl]:
+    """C12.  (a) schema of the compiled Polars plan == static dtypes, exactly (Polars' own
+    type inference is the oracle, no value involved); (b) static kind of every SQLite
+    output expression (tracked by SEM_sqlite) lies in the family of the static dtype;
+    (c) on concrete tables: exported schemas (Polars exactly; SQLite up to the numeric
+    family, all-null columns may be null-typed), re-import with Table(...) and collect()."""
+    import polars as pl
+
+    import pydiverse.transform as pdt
+    from pydiverse.transform import extended as X
+    from pydiverse.transform._internal.tree import types as T
+
+    from . import real as RL
+
+    out = []
+
+    def static_types(tbl):
+        return {c.name: T.without_const(c.dtype()) for c in tbl}
+
+    def build(be, frames):
+        tbls = RL.polars_tables(tp.sources, frames) if be == "polars" else RL.sqlite_tables(tp.sources, RL.sqlite_engine(tp.sources, frames))
+        t = tp.prog(RL.RealAPI, *tbls)
+        return t[0] if isinstance(t, tuple) else t
+
+    # (a)
+    if b.status.get("polars") in ("ok",) or str(b.status.get("polars", "")).startswith("unsupported"):
+        o = Obl(tp.name, "types:polars-plan-schema")
+        try:
+            tbl = build("polars", b.frames)
+            st = static_types(tbl)
+            lf = tbl >> X.export(pdt.Polars(lazy=True))
+            sch = lf.collect_schema()
+            bad = {n: (str(st[n]), str(sch[n])) for n in sch.names() if st[n].to_polars() != sch[n]}
+            o.status = "structural-ok" if not bad and list(sch.names()) == list(st) else "structural-fail"
+            o.detail = {"mismatch": bad, "static": {k: str(v) for k, v in st.items()}}
+        except Exception as e:  # noqa: BLE001
+            o.status = "structural-fail"
+            o.detail = {"error": f"{type(e).__name__}: {str(e)[:300]}"}
+        out.append(o)
+    # (b)
+    if b.status.get("sqlite") == "ok" and isinstance(b.artefact.get("sqlite"), str):
+        o = Obl(tp.name, "types:sqlite-storage-kind")
+        try:
+            tbl = build("sqlite", b.frames)
+            st = static_types(tbl)
+            rel = b.rel["sqlite"]
+            bad = {}
+            for n in rel.names:
+                kind = rel.data[n][0].ty if rel.data[n] else "null"
+                fam = "null" if type(st[n]).__name__ == "NullType" else ("num" if (st[n].is_int() or st[n].is_float()) else "bool" if st[n] == pdt.Bool() else "str" if isinstance(st[n], pdt.String) else str(st[n]))
+                ok = kind == "null" or (fam == "num" and kind in ("int", "real", "bool")) or (fam == "bool" and kind in ("bool", "int")) or (fam == "str" and kind == "str") or fam == "null"
+                if not ok:
+                    bad[n] = (str(st[n]), kind)
+            o.status = "structural-ok" if not bad else "structural-fail"
+            o.detail = {"mismatch": bad}
+        except Exception as e:  # noqa: BLE001
+            o.status = "structural-fail"
+            o.detail = {"error": f"{type(e).__name__}: {str(e)[:300]}"}
+        out.append(o)
+    # (c)
+    for be in tp.backends:
+        if str(b.status.get(be, "")).startswith(("refused", "error")):
+            continue
+        o = Obl(tp.name, f"types:export:{be}")
+        bad = None
+        tried = 0
+        for _ in range(max(2, cfg.validate_samples)):
+            inputs = {name: random_rows(schema, b.syms[name].nmax, rng, tp) for name, schema in tp.sources}
+            subs = []
+            for name, _ in tp.sources:
+                subs += b.syms[name].substitution(inputs[name])
+            try:
+                if not all(z3.is_true(z3.simplify(z3.substitute(c, *subs))) for _, c in b.world.defs):
+                    continue
+            except z3.Z3Exception:
+                continue
+            frames = {name: RL.frame_from_rows(schema, inputs[name]) for name, schema in tp.sources}
+            try:
+                tbl = build(be, frames)
+                st = static_types(tbl)
+                df = tbl >> X.export(pdt.Polars())
+            except Exception as e:  # noqa: BLE001
+                bad = {"inputs": inputs, "error": f"{type(e).__name__}: {str(e)[:200]}"}
+                break
+            tried += 1
+            for n in df.columns:
+                want = st[n].to_polars()
+                got = df.schema[n]
+                allnull = df[n].null_count() == df.height
+                if be == "polars":
+                    ok = got == want
+                else:
+                    ok = _family(got) == _family(want) or (allnull and _family(got) == "null") or ({_family(got), _family(want)} <= {"int", "float"})
+                if not ok:
+                    bad = {"inputs": inputs, "column": n, "static": str(st[n]), "exported": str(got)}
+            # re-import and collect reproduce the exported types
+            try:
+                re = pdt.Table(df)
+                rt = {c.name: T.without_const(c.dtype()).to_polars() for c in re}
+                if any(rt[n] != df.schema[n] for n in df.columns) and bad is None:
+                    bad = {"inputs": inputs, "reimport": {n: (str(rt[n]), str(df.schema[n])) for n in df.columns if rt[n] != df.schema[n]}}
+                col = tbl >> X.collect()
+                ct = {c.name: T.without_const(c.dtype()).to_polars() for c in col}
+                if any(_family(ct[n]) != _family(df.schema[n]) for n in df.columns) and bad is None:
+                    bad = {"inputs": inputs, "collect": {n: (str(ct[n]), str(df.schema[n])) for n in df.columns}}
+            except Exception as e:  # noqa: BLE001
+                if bad is None:
+                    bad = {"inputs": inputs, "error": f"reimport/collect: {type(e).__name__}: {str(e)[:200]}"}
+            if bad:
+                break
+        o.status = "structural-ok" if bad is None else "structural-fail"
+        o.detail = bad or {"tried": tried}
+        out.append(o)
+    return out
+
+
 def random_rows(schema, nmax, rng, tp: Template):
     n = rng.randint(0, nmax)
     rows = []
@@ -727,6 +860,9 @@ def analyse(tp: Template, cfg: Cfg, *, known=None) -> dict:
             o.status = "structural-ok" if str(b.status.get("sqlite", "")).startswith("refused") else "structural-fail"
             o.detail = b.status
             obls.append(o)
+        if cfg.types_check:
+            obls += type_obligations(tp, b, cfg, rng)
+            raise _Done()
         if cfg.structural_only:
             obls += structural(tp, b)
             raise _Done()
